@@ -26,6 +26,9 @@ type Lowerer struct {
 	// Type resolution
 	registry *registry.TypeRegistry   // Deduplicates types
 	types    map[string]ir.TypeHandle // Named type lookup
+	// structAligns records each struct's WGSL alignment as computed by lowerStruct
+	// (max of member alignments, honoring explicit @align attributes).
+	structAligns map[ir.TypeHandle]uint32
 
 	// Variable resolution
 	globals           map[string]ir.GlobalVariableHandle
@@ -733,7 +736,11 @@ func (l *Lowerer) lowerStruct(s *parser.StructDecl) error {
 	}
 	// Round struct size up to alignment of largest member
 	structSize := (offset + maxAlign - 1) &^ (maxAlign - 1)
-	l.registerNamedType(s.Name, ir.StructType{Members: members, Span: structSize})
+	handle := l.registerNamedType(s.Name, ir.StructType{Members: members, Span: structSize})
+	if l.structAligns == nil {
+		l.structAligns = make(map[ir.TypeHandle]uint32)
+	}
+	l.structAligns[handle] = maxAlign
 	return nil
 }
 
@@ -831,7 +838,12 @@ func (l *Lowerer) typeAlignmentAndSize(handle ir.TypeHandle) (align, size uint32
 		return elemAlign, stride
 
 	case ir.StructType:
-		// Struct alignment is the max of its members, size is pre-calculated
+		// Struct alignment is the max of its members, size is pre-calculated.
+		// Structs lowered from WGSL declarations remember their alignment so that
+		// explicit @align attributes on their members are honored when nested.
+		if a, ok := l.structAligns[handle]; ok {
+			return a, t.Span
+		}
 		var maxMemberAlign uint32 = 1
 		for _, member := range t.Members {
 			memberAlign, _ := l.typeAlignmentAndSize(member.Type)
